@@ -45,6 +45,16 @@ func c09Gen(seed uint64, run int, tier string) *Case {
 		c.Cfg["seg"] = rt.SegAll
 		c.Cfg["maxsteps"] = int64(n)*80 + 100000
 		c.Cfg["lrcallers"] = int64(r.Pick(1, 1, 3))
+		if (tier == "thorough" && run%(2*every) == every) || (tier != "thorough" && run%1000 == 350) {
+			// more calls than there are tag values, every one answered with Rerror: the slots of failed calls are
+			// recycled like the others
+			c.Stratum = "long-run-errors"
+			c.Cfg["lrerr"] = 1
+			c.Cfg["lrcallers"] = 1
+			c.Cfg["longrun"] = 70000
+			c.Cfg["maxsteps"] = 70000*80 + 100000
+			return c
+		}
 		if run%(2*every) == 0 && (tier == "thorough" || run%1000 == 100) {
 			// wide long run: 64 requests in flight at a time, so that most request slots overflow the client's
 			// 16-slot cache and their tags go back through the pool; more than 65 535 such frees must not exhaust it
@@ -226,6 +236,17 @@ func c09Exec(x *Ctx) {
 				g := rt.Go(rt.SiteSpawn, func() {
 					rt.SetName(fmt.Sprintf("longrun%d", j))
 					for i := j; i < longrun; i += k {
+						if c.cfg("lrerr") != 0 {
+							off := markErr | uint64(i)
+							if _, err := clnt.Read(clnt.Root, off, 10); err == nil {
+								x.Violate("c1-content", "call %d of the long run was answered with Rerror but returned success", i)
+								return
+							} else if e, ok := err.(*go9p.Error); !ok || e.Err != func() string { t, _ := errFor(off); return t }() {
+								x.Violate("c1-content", "call %d of the long run: Rerror text came back as %v", i, err)
+								return
+							}
+							continue
+						}
 						d, err := clnt.Stat(clnt.Root)
 						if err != nil || d.Name != statFor(clnt.Root.Fid).Name {
 							x.Violate("c1-content", "call %d of the long run failed or returned a wrong stat: %v", i, err)
